@@ -355,12 +355,33 @@ package server
 //@   locks C25
 //@   guards C26
 
-//@ contract (*peer).replaceImportFilterChain, (*peer).replaceExportFilterChain, (*peer).collisionHandling, (*peer).stop, (*peer).dumpRIBIn, (*peer).dumpRIBOut
+//@ contract (*peer).replaceImportFilterChain, (*peer).replaceExportFilterChain, (*peer).collisionHandling, (*peer).dumpRIBIn, (*peer).dumpRIBOut
 //@   props C25 C26
 //@   nosafety
 //@   acquires 3
 //@   locks C25
+//@   noblock
 //@   guards C26
+
+// stop waits for every FSM to take the stop event: to be called with no lock held.
+//@ contract (*peer).stop
+//@   props C25 C26
+//@   nosafety
+//@   acquires 0
+//@   locks C25
+//@   noblock
+//@   guards C26
+
+// Events reach an FSM through an unbuffered channel: the sender waits until the
+// FSM's goroutine takes the event, and that goroutine may itself be waiting for
+// a lock (collisionHandling takes the peer's FSM list lock). Functions that
+// send an event are therefore to be called with no lock held (`acquires 0`),
+// and sends inside functions with `noblock` are obligations of their own.
+//@ contract (*FSM).cease, (*FSM).activate
+//@   props C25
+//@   acquires 0
+//@   locks C25
+//@   noblock
 
 //@ contract metricsForPeer
 //@   props C25 C26
@@ -374,4 +395,13 @@ package server
 //@   nosafety
 //@   acquires 2
 //@   locks C25
+//@   guards C26
+
+// Disposing a session waits for its FSMs (peer.stop): no lock is held meanwhile.
+//@ contract (*bgpServer).DisposePeer
+//@   props C25 C26
+//@   nosafety
+//@   acquires 0
+//@   locks C25
+//@   noblock
 //@   guards C26
